@@ -177,7 +177,7 @@ type c16Container struct {
 
 func (c *c16Container) AddTask(task any) bool {
 	c.tasks = append(c.tasks, task.(c16Task))
-	return len(c.tasks) >= c.max
+	return c.max > 0 && len(c.tasks) >= c.max // max 0: never asks for a flush
 }
 
 func (c *c16Container) Execute(tasks any) {
@@ -470,7 +470,19 @@ type c16Obs struct {
 // letters used in the compact "batch order" strings of samples and digests
 var c16TriggerLetter = map[string]string{"threshold": "T", "tick": "t", "quit": "q", "flush": "f", "wait": "w", "other": "o"}
 
+// c16ThresholdClass: evidence label for the threshold boundary classes.
+func c16ThresholdClass(cfg c16Cfg) string {
+	switch {
+	case cfg.N == 0 || cfg.N >= 1000:
+		return "unreachable"
+	case cfg.N == 1:
+		return "1"
+	}
+	return "2-10"
+}
+
 type c16Stats struct {
+	zeroBatches    int // chunk: batches made of size-0 tasks only
 	tasks, batches int
 	byTrigger      map[string]int
 	waitsChecked   int // (wait, task) pairs with a happens-before edge that were checked
@@ -529,6 +541,9 @@ func c16Verify(m *vk.M, desc string, cfg c16Cfg, o c16Obs, st *c16Stats) bool {
 			sum := 0
 			for _, t := range b.tasks {
 				sum += t.Size
+			}
+			if len(b.tasks) > 0 && sum == 0 {
+				st.zeroBatches++
 			}
 			if n := len(b.tasks); n > 0 && sum-b.tasks[n-1].Size >= cfg.N {
 				c16Viol(m, "C16:chunk-overflow", desc, "chunk batch of %d bytes exceeds the limit %d by at least its last task (%d bytes): %v (trigger %s)", sum, cfg.N, b.tasks[n-1].Size, b.tasks, b.trigger)
